@@ -25,8 +25,9 @@ EXPRESSIBLE = {
     'ret_type': {'kotlin', 'scala', 'groovy'},      # groovy: local functions only
     'diamond': {'java', 'kotlin', 'groovy', 'scala'},
     'final': {'java', 'kotlin', 'groovy', 'scala'},
+    'type_argument': {'java', 'kotlin', 'groovy', 'scala'},
 }
-KINDS = ['var_type', 'ret_type', 'diamond', 'final']
+KINDS = ['var_type', 'ret_type', 'diamond', 'final', 'type_argument']
 
 
 def strip_literals(text):
@@ -185,6 +186,9 @@ def h_fidelity(eng, tier, lang):
             # groovy expresses an omitted return type for local functions only (def inner = {...})
             sites = [(ns, d) for ns, d in sites if len(ns) >= 2 and ns[-1][:1].islower() and d.get_type() != p0.bt_factory.get_void_type()]
         sites = [d for _, d in sites]
+    elif kind == 'type_argument':
+        # an explicit type argument of an instantiation is replaced in place (what TypeOverwriting does)
+        sites = [n for n in instantiations(q) if isinstance(n, ast.New) and not n.class_type.can_infer_type_args]
     else:
         # java and groovy never print explicit type arguments of generic method calls
         sites = [n for n in instantiations(q) if isinstance(n, ast.New) or lang in ('kotlin', 'scala')]
@@ -211,6 +215,11 @@ def h_fidelity(eng, tier, lang):
         else:
             carried_before = not d.can_infer_type_args
             d.can_infer_type_args = carried_before
+    elif kind == 'type_argument':
+        f = p0.bt_factory
+        old = d.class_type.type_args[0]
+        new = f.get_string_type() if getattr(old, 'name', None) != f.get_string_type().name else f.get_integer_type()
+        d.class_type.type_args[0] = new
     else:
         d.is_final = not d.is_final
     try:
